@@ -240,7 +240,7 @@ package memefish
 // @ spec CloneOK(l) = l != nil && LexInv(l) && TokOK(l) && nonEmptyTok(l) && l.Token.Kind != ""
 
 // @ func memefish.(*Parser).handleError
-// @   props C03 C09
+// @   props C03 C09 C10
 // @   requires p != nil && l != nil && isErr(r)
 // @   ensures p.Lexer == l
 // @   ensures[C09] recorded: len(p.errors) == old(len(p.errors)) + 1
